@@ -1,7 +1,8 @@
 /-
   Property C02 — the native jd diff text is a lossless carrier of a diff.
   Statement file (proofs in JdProofs/NativeRoundTrip.lean, namespace `Jd.NativeRT`: the TEXT clauses;
-  JdProofs/Robust.lean, namespace `Jd.Robust`, group 2: the EFFECT clause).
+  JdProofs/Robust.lean, namespace `Jd.Robust`, group 2: the EFFECT clause;
+  JdProofs/NativeEndToEnd.lean, namespace `Jd.E2E`: the diffs PRODUCED by `Diff`, END TO END).
 
   Model side: `renderM nc opts d` is `Diff.Render(opts...)`, `readDiffM nc text` is
   `ReadDiffString(text)` (JdModel/Native.lean); the reader is the 7-state automaton with the
@@ -57,10 +58,56 @@
         (`hunkListDoc`); nothing more is asked of a merge hunk. Strict hunks first, merge hunks after
         (`mergeMono`, part of `wfDiff`). Strict key / index hunks with list-document payloads is the
         shape of the diffs the library produces in list mode (`Jd.Props.C01.diffM_list_hunks_strict`);
-        that they also satisfy `voidOK` is not a theorem.
+        that they also satisfy `voidOK` — and `wfDiff`, and the codec contract — is now a theorem
+        about `Diff` under `voidFree` (→ E4, `produced_diff_in_domain`).
    (E3) MERGE hunks only, any tags, any path — `normalised_same_effect_merge`: EVERY document, up
         to the array types of the result; the only hypothesis is `voidOK` (= a void entry of `remove`
         is alone in its list).
+   (E4) DIFFS PRODUCED BY `Diff`, END TO END ("a diff printed by `jd a b` and applied with `jd -p`
+        turns a into b"), LIST reading of arrays, STRICT strategy. `diffM o a b` is
+        `a.Diff(b, options...)` (JdModel/Diff.lean). The premises of the theorems above are no longer
+        hypotheses about the diff but THEOREMS about `Diff`:
+          `produced_diff_in_domain`     `wfDiff`, `listHunkOK` (so `voidOK`), `noEmptySetKeys`, strict,
+                                        paths of keys of `a` / `b` and indices < 2^53;
+          `produced_diff_rerenders`     `listDocHunk` (premise of identical re-rendering);
+          `produced_diff_codec`         `CodecOK nc (a.Diff(b))` from the contract on the SUB-TERMS of
+                                        `a`, `b` and on the paths of the diff
+                                        (`produced_diff_paths_codec`: or on all key / index paths
+                                        over the keys of the two documents).
+        Composed:
+          `produced_diff_text_lossless`  C02 proper for `d = a.Diff(b)`: the printed text is read back
+                                        as a diff that renders to the IDENTICAL text and has the same
+                                        effect as `d` on EVERY list document (up to array types). No
+                                        hypothesis on hashes, numbers, key order.
+          `print_read_patch`            `jd a b | jd -p a` on the model: if `Render` gives `text`, then
+                                        `ReadDiffString(text)` = `normDiff d` and `a.Patch` of it is a
+                                        list document structurally equal to `b` (`specEq` both ways)
+                                        that `Equals` `b` under the options (`PrecMono o` when there
+                                        is a Precision option; `print_read_patch_equals`: none).
+          `produced_diff_renders`, `print_read_patch_total`   the total form: the text EXISTS when
+                                        `json.Marshal` succeeds on the sub-terms and the paths.
+        Hypotheses of E4 and why:
+          `dispatchTag o = .list`, `isMerge o = false`   list reading, strict strategy;
+          `a.listDoc`, `b.listDoc`                       list-mode documents;
+          `E2E.voidFree a`, `E2E.voidFree b` (decidable)  no array ELEMENT and no object member inside
+                the document is void (jd's in-memory "absent" value; no reader produces it inside a
+                document). Contains `DPL.memOK`. The array-element part CANNOT be dropped: with a void
+                element the printed diff is REJECTED by the reader (`void_element_read_witness`) or
+                read back as a diff that patches `a` to something else (`void_element_effect_witness`);
+                both pairs are inside the domain of the C01 list theorem and correct in memory. Not
+                reachable from `jd a b | jd -p` (text never yields void inside a document): a boundary
+                of the model's domain, not a defect of the Go code;
+          `E2E.shortArrays b` (decidable)  every array of `b` has fewer than 2^53 elements: indices are
+                written as float64 numbers (`idxOK` of `wfHunk`); nothing is asked of `a`;
+          `ValOK nc z` for `z ∈ subterms a ++ subterms b`, `PathOK nc h.path` for the hunks of the
+                diff   the contract on encoding/json, now on the INPUTS (values) and the path arrays,
+                no longer on the payloads of the diff;
+          `a.wf`, `b.wf`, `finiteNums`, `FloatLaws`, `DPL.HashOK o a b`, `DPL.ZeroOK a b`
+                (`print_read_patch*` only)   the domain of the C01 list theorem, unchanged: the
+                in-memory diff must be correct for the printed one to be.
+        NOT in E4: SET / MULTISET readings, SetKeys, the MERGE strategy (their hunks carry set / keyed
+        path elements or merge metadata, i.e. other premises; E1 / E3 cover them hunk-wise, with the
+        premises as hypotheses), colour output end to end.
   OUTSIDE the domain the effect CAN differ; every witness below is inside `wfDiff` (the domain of the
   text clauses), so the hypotheses are not artefacts of the proof:
     `noEmptySetKeys_needed` / `emptySetKeys_witness`  `{}` as keyed element: error before, `[null]` after;
@@ -76,6 +123,9 @@
 -/
 import JdProofs.NativeRoundTrip
 import JdProofs.Robust
+import JdProofs.NativeEndToEnd
+
+set_option autoImplicit false
 
 namespace Jd.Props.C02
 open Jd Jd.Spec Jd.NativeRT Jd.Robust
@@ -300,5 +350,196 @@ example : wfDiff exEffect = true ∧ exEffect.all rawHunk = true ∧ noEmptySetK
 
 example (sw : Bool) (c : Json) : patchAll sw c (normDiff exEffect) = patchAll sw c exEffect :=
   normalised_same_effect sw exEffect (by decide) (by decide) (by decide) c
+
+/-! ## (E4) Diffs produced by `Diff`, end to end: `jd a b | jd -p a` (list reading, strict strategy)
+
+  Names of `Jd.E2E` and `Jd.DPL` are written qualified. `E2E.voidFree x`: nothing strictly inside
+  `x` is void; `E2E.shortArrays x`: every array of `x` has fewer than 2^53 elements; `DPL.subterms x`:
+  all nodes of `x`; `E2E.docKeys x`: all object keys of `x`; `E2E.PathIn K N p`: `p` consists of keys
+  from `K` and natural indices `≤ N`. -/
+
+/-- **the premises are theorems about `Diff`.** For list documents with nothing void inside (arrays
+    of `b` shorter than 2^53) the hunk sequence `a.Diff(b)` is in the reader's domain (`wfDiff`),
+    every hunk is in the domain of the list-mode effect theorem (E2: `listHunkOK`), no hunk has a
+    `{}`-keyed element, every hunk is strict, `voidOK`, and addressed by keys of the two documents
+    and natural indices below 2^53 -/
+theorem produced_diff_in_domain (o : Opts) (ho : dispatchTag o = .list) (hm : isMerge o = false)
+    (a b : Json) (ha : a.listDoc = true) (hb : b.listDoc = true) (hva : E2E.voidFree a = true)
+    (hvb : E2E.voidFree b = true) (hlen : E2E.shortArrays b = true) :
+    wfDiff (diffM o a b) = true ∧ (diffM o a b).all listHunkOK = true ∧
+    noEmptySetKeys (diffM o a b) = true ∧
+    (∀ h ∈ diffM o a b, h.merge = false ∧ voidOK h = true ∧
+      E2E.PathIn (E2E.docKeys a ++ E2E.docKeys b) (2 ^ 53 - 1) h.path) :=
+  E2E.diffM_premises o ho hm a b ha hb hva hvb hlen
+
+/-- … and the premise of identical re-rendering: no set / multiset typed array node in a payload,
+    no key object in a path -/
+theorem produced_diff_rerenders (o : Opts) (ho : dispatchTag o = .list) (hm : isMerge o = false)
+    (a b : Json) (ha : a.listDoc = true) (hb : b.listDoc = true) (hva : E2E.voidFree a = true)
+    (hvb : E2E.voidFree b = true) (hlen : E2E.shortArrays b = true) :
+    (diffM o a b).all listDocHunk = true :=
+  E2E.diffM_listDocHunk o ho hm a b ha hb hva hvb hlen
+
+/-- the codec contract for the diff follows from the contract on the SUB-TERMS of the two documents
+    (every payload value of `a.Diff(b)` is one, up to the Go type of a top array node) and on the
+    paths of the diff -/
+theorem produced_diff_codec (nc : NumCodec) (o : Opts) (ho : dispatchTag o = .list)
+    (hm : isMerge o = false) (a b : Json) (ha : a.listDoc = true) (hb : b.listDoc = true)
+    (hva : E2E.voidFree a = true) (hvb : E2E.voidFree b = true) (hlen : E2E.shortArrays b = true)
+    (hv : ∀ z ∈ DPL.subterms a ++ DPL.subterms b, ValOK nc z)
+    (hp : ∀ h ∈ diffM o a b, PathOK nc h.path) :
+    CodecOK nc (diffM o a b) :=
+  E2E.diffM_codecOK nc o ho hm a b ha hb hva hvb hlen hv hp
+
+/-- the path hypothesis at the level of the inputs: it is enough that the contract holds of every
+    path made of keys of the two documents and natural indices below 2^53 -/
+theorem produced_diff_paths_codec (nc : NumCodec) (o : Opts) (ho : dispatchTag o = .list)
+    (hm : isMerge o = false) (a b : Json) (ha : a.listDoc = true) (hb : b.listDoc = true)
+    (hva : E2E.voidFree a = true) (hvb : E2E.voidFree b = true) (hlen : E2E.shortArrays b = true)
+    (hpaths : ∀ p, E2E.PathIn (E2E.docKeys a ++ E2E.docKeys b) (2 ^ 53 - 1) p → PathOK nc p) :
+    ∀ h ∈ diffM o a b, PathOK nc h.path :=
+  E2E.diffM_pathOK_of_inputs nc o ho hm a b ha hb hva hvb hlen hpaths
+
+/-- **C02 for every diff PRODUCED by `Diff` (list reading, strict strategy).** The printed text of
+    `a.Diff(b)` is read back as a diff that renders to the IDENTICAL text and has the same effect as
+    `a.Diff(b)` on EVERY list document `c` (same success / failure, same result up to the Go type of
+    array nodes). No hypothesis on hashes, numbers or key order -/
+theorem produced_diff_text_lossless (nc : NumCodec) (o : Opts) (ho : dispatchTag o = .list)
+    (hm : isMerge o = false) (a b : Json) (ha : a.listDoc = true) (hb : b.listDoc = true)
+    (hva : E2E.voidFree a = true) (hvb : E2E.voidFree b = true) (hlen : E2E.shortArrays b = true)
+    (hv : ∀ z ∈ DPL.subterms a ++ DPL.subterms b, ValOK nc z)
+    (hp : ∀ h ∈ diffM o a b, PathOK nc h.path)
+    (text : String) (hr : renderM nc [] (diffM o a b) = some text) :
+    ∃ d', readDiffM nc text = .ok d' ∧ renderM nc [] d' = some text ∧
+      ∀ c : Json, c.listDoc = true →
+        Outcome.mapO untag (patchM c d') = Outcome.mapO untag (patchM c (diffM o a b)) :=
+  E2E.diff_text_lossless nc o ho hm a b ha hb hva hvb hlen hv hp text hr
+
+/-- **`jd a b | jd -p a`, on the model.** If `a.Diff(b).Render()` gives `text`, then
+    `ReadDiffString(text)` succeeds with `d' = normDiff (a.Diff(b))`, and `a.Patch(d')` succeeds with a
+    list document `r` that is structurally equal to `b` (`specEq`, from either side) and `Equals` `b`
+    under the options of the diff (`DPL.PrecMono o`: when there is a Precision option) -/
+theorem print_read_patch (L : FloatLaws) (nc : NumCodec) (o : Opts)
+    (ho : dispatchTag o = .list) (hm : isMerge o = false) (a b : Json)
+    (ha1 : a.listDoc = true) (ha2 : a.wf = true) (ha3 : a.finiteNums = true)
+    (hb1 : b.listDoc = true) (hb2 : b.wf = true) (hb3 : b.finiteNums = true)
+    (H : DPL.HashOK o a b) (Z : DPL.ZeroOK a b)
+    (hva : E2E.voidFree a = true) (hvb : E2E.voidFree b = true) (hlen : E2E.shortArrays b = true)
+    (hv : ∀ z ∈ DPL.subterms a ++ DPL.subterms b, ValOK nc z)
+    (hp : ∀ h ∈ diffM o a b, PathOK nc h.path)
+    (text : String) (hr : renderM nc [] (diffM o a b) = some text) :
+    ∃ d', readDiffM nc text = .ok d' ∧ d' = normDiff (diffM o a b) ∧
+      ∃ r, patchM a d' = .ok r ∧ specEq r b = true ∧ specEq b r = true ∧ r.listDoc = true ∧
+        (DPL.PrecMono o → equivB o r b = true ∧ equals o r b = true) :=
+  E2E.diff_render_read_patch L nc o ho hm a b ha1 ha2 ha3 hb1 hb2 hb3 H Z hva hvb hlen hv hp text hr
+
+/-- the headline without a Precision option: the diff printed by `jd a b`, applied to `a` by `jd -p`,
+    gives a document that is structurally equal to `b` and `Equals` `b` -/
+theorem print_read_patch_equals (L : FloatLaws) (nc : NumCodec) (o : Opts)
+    (ho : dispatchTag o = .list) (hm : isMerge o = false) (hprec : precOf o = 0) (a b : Json)
+    (ha1 : a.listDoc = true) (ha2 : a.wf = true) (ha3 : a.finiteNums = true)
+    (hb1 : b.listDoc = true) (hb2 : b.wf = true) (hb3 : b.finiteNums = true)
+    (H : DPL.HashOK o a b) (Z : DPL.ZeroOK a b)
+    (hva : E2E.voidFree a = true) (hvb : E2E.voidFree b = true) (hlen : E2E.shortArrays b = true)
+    (hv : ∀ z ∈ DPL.subterms a ++ DPL.subterms b, ValOK nc z)
+    (hp : ∀ h ∈ diffM o a b, PathOK nc h.path)
+    (text : String) (hr : renderM nc [] (diffM o a b) = some text) :
+    ∃ d', readDiffM nc text = .ok d' ∧
+      ∃ r, patchM a d' = .ok r ∧ specEq r b = true ∧ equals o r b = true :=
+  E2E.diff_render_read_patch_noPrecision L nc o ho hm hprec a b ha1 ha2 ha3 hb1 hb2 hb3 H Z
+    hva hvb hlen hv hp text hr
+
+/-- `a.Diff(b).Render()` succeeds when `json.Marshal` succeeds on every sub-term of `a` and `b` and on
+    the paths of the diff (it can only fail on a number, through the number codec) -/
+theorem produced_diff_renders (nc : NumCodec) (o : Opts) (ho : dispatchTag o = .list)
+    (hm : isMerge o = false) (a b : Json) (ha : a.listDoc = true) (hb : b.listDoc = true)
+    (hva : E2E.voidFree a = true) (hvb : E2E.voidFree b = true) (hlen : E2E.shortArrays b = true)
+    (hmv : ∀ z ∈ DPL.subterms a ++ DPL.subterms b, (marshalNode nc z).isSome = true)
+    (hmp : ∀ h ∈ diffM o a b, (jsonM nc (pathToJson h.path)).isSome = true) :
+    ∃ text, renderM nc [] (diffM o a b) = some text :=
+  E2E.diffM_renders nc o ho hm a b ha hb hva hvb hlen hmv hmp
+
+/-- **end to end, total form**: when the values and paths at hand have a JSON text, the printed
+    diff EXISTS, is read back, and the diff read back patches `a` to a document equal to `b` -/
+theorem print_read_patch_total (L : FloatLaws) (nc : NumCodec) (o : Opts)
+    (ho : dispatchTag o = .list) (hm : isMerge o = false) (a b : Json)
+    (ha1 : a.listDoc = true) (ha2 : a.wf = true) (ha3 : a.finiteNums = true)
+    (hb1 : b.listDoc = true) (hb2 : b.wf = true) (hb3 : b.finiteNums = true)
+    (H : DPL.HashOK o a b) (Z : DPL.ZeroOK a b)
+    (hva : E2E.voidFree a = true) (hvb : E2E.voidFree b = true) (hlen : E2E.shortArrays b = true)
+    (hv : ∀ z ∈ DPL.subterms a ++ DPL.subterms b, (marshalNode nc z).isSome = true ∧ ValOK nc z)
+    (hp : ∀ h ∈ diffM o a b, (jsonM nc (pathToJson h.path)).isSome = true ∧ PathOK nc h.path) :
+    ∃ text d' r, renderM nc [] (diffM o a b) = some text ∧ readDiffM nc text = .ok d' ∧
+      patchM a d' = .ok r ∧ specEq r b = true ∧ specEq b r = true ∧ r.listDoc = true ∧
+      (DPL.PrecMono o → equivB o r b = true ∧ equals o r b = true) :=
+  E2E.diff_print_read_patch L nc o ho hm a b ha1 ha2 ha3 hb1 hb2 hb3 H Z hva hvb hlen hv hp
+
+/-! ### `voidFree` cannot be dropped (model-only boundary: no reader produces void inside a document)
+
+  Both pairs satisfy every hypothesis of the C01 list theorem (`listDoc`, `wf`, `finiteNums`,
+  `DPL.memOK`) and `shortArrays`, and `a.Patch(a.Diff(b))` is correct IN MEMORY; only `voidFree` fails. -/
+
+/-- `E2E.Witness.wA` = `[void]`, `wB` = `[]`: the diff is printed as `@ [0]` / `[` / `]` (a removed void
+    value has no `-` line) and `ReadDiffString` REJECTS that text -/
+theorem void_element_read_witness :
+    E2E.Witness.wA.listDoc = true ∧ E2E.Witness.wA.wf = true ∧ E2E.Witness.wA.finiteNums = true ∧
+    DPL.memOK E2E.Witness.wA = true ∧
+    E2E.Witness.wB.listDoc = true ∧ E2E.Witness.wB.wf = true ∧ E2E.Witness.wB.finiteNums = true ∧
+    DPL.memOK E2E.Witness.wB = true ∧
+    E2E.voidFree E2E.Witness.wA = false ∧ E2E.voidFree E2E.Witness.wB = true ∧
+    E2E.shortArrays E2E.Witness.wB = true ∧
+    patchM E2E.Witness.wA (diffM [] E2E.Witness.wA E2E.Witness.wB) = .ok (.arr .list []) ∧
+    ∃ text, renderM exCodec [] (diffM [] E2E.Witness.wA E2E.Witness.wB) = some text ∧
+      readDiffM exCodec text = .err :=
+  E2E.Witness.void_element_witness_read
+
+/-- `E2E.Witness.vA` = `[true, null]`, `vB` = `[void, null]`: the text `@ [0]` / `[` / `- true` /
+    `  null` (no `+` line for the void value) IS accepted, and the diff read back patches
+    `[true, null]` to `[null]` — success, but not the target -/
+theorem void_element_effect_witness :
+    E2E.Witness.vA.listDoc = true ∧ E2E.Witness.vA.wf = true ∧ E2E.Witness.vA.finiteNums = true ∧
+    DPL.memOK E2E.Witness.vA = true ∧
+    E2E.Witness.vB.listDoc = true ∧ E2E.Witness.vB.wf = true ∧ E2E.Witness.vB.finiteNums = true ∧
+    DPL.memOK E2E.Witness.vB = true ∧
+    E2E.voidFree E2E.Witness.vA = true ∧ E2E.voidFree E2E.Witness.vB = false ∧
+    E2E.shortArrays E2E.Witness.vB = true ∧
+    patchM E2E.Witness.vA (diffM [] E2E.Witness.vA E2E.Witness.vB)
+      = .ok (.arr .list [.void, .null]) ∧
+    ∃ text d', renderM exCodec [] (diffM [] E2E.Witness.vA E2E.Witness.vB) = some text ∧
+      readDiffM exCodec text = .ok d' ∧ patchM E2E.Witness.vA d' = .ok (.arr .list [.null]) ∧
+      specEq (.arr .list [.null]) E2E.Witness.vB = false :=
+  E2E.Witness.void_element_witness_effect
+
+/-! Non-vacuity of (E4): `E2E.Example.exA` = `{"k":[true,null,["x"]]}`, `E2E.Example.exB` =
+    `{"k":[false,null,["x","y"]],"n":null}` (three hunks: `[` marker + after-context; a hunk inside the
+    nested list with before-context + `]` marker; an added member) with the concrete codec `exCodec`:
+    every decidable hypothesis holds (`E2E.Example.dom`), the codec contract holds on all sub-terms
+    and on the three paths (`ex_vals`, `ex_paths`), there is no hash collision (`ex_hash`); only the
+    IEEE-754 laws `FloatLaws` remain. -/
+
+example : E2E.Example.exA.listDoc = true ∧ E2E.Example.exB.listDoc = true ∧
+    E2E.voidFree E2E.Example.exA = true ∧ E2E.voidFree E2E.Example.exB = true ∧
+    E2E.shortArrays E2E.Example.exB = true ∧ (diffM [] E2E.Example.exA E2E.Example.exB).length = 3 :=
+  ⟨E2E.Example.dom.1, E2E.Example.dom.2.2.2.2.1, E2E.Example.dom.2.2.2.2.2.2.2.2.1,
+    E2E.Example.dom.2.2.2.2.2.2.2.2.2.1, E2E.Example.dom.2.2.2.2.2.2.2.2.2.2,
+    by rw [E2E.Example.ex_diff]; rfl⟩
+
+/-- the end-to-end statement for this pair: the printed diff exists, is read back, and patches `exA`
+    to a document that `Equals` `exB` -/
+example (L : FloatLaws) :
+    ∃ text d' r, renderM exCodec [] (diffM [] E2E.Example.exA E2E.Example.exB) = some text ∧
+      readDiffM exCodec text = .ok d' ∧ patchM E2E.Example.exA d' = .ok r ∧
+      specEq r E2E.Example.exB = true ∧ equals [] r E2E.Example.exB = true :=
+  E2E.Example.ex_end_to_end L
+
+example (text : String)
+    (hr : renderM exCodec [] (diffM [] E2E.Example.exA E2E.Example.exB) = some text) :
+    ∃ d', readDiffM exCodec text = .ok d' ∧ renderM exCodec [] d' = some text ∧
+      ∀ c : Json, c.listDoc = true → Outcome.mapO untag (patchM c d')
+        = Outcome.mapO untag (patchM c (diffM [] E2E.Example.exA E2E.Example.exB)) :=
+  produced_diff_text_lossless exCodec [] rfl rfl _ _ E2E.Example.dom.1 E2E.Example.dom.2.2.2.2.1
+    E2E.Example.dom.2.2.2.2.2.2.2.2.1 E2E.Example.dom.2.2.2.2.2.2.2.2.2.1
+    E2E.Example.dom.2.2.2.2.2.2.2.2.2.2 (fun z hz => (E2E.Example.ex_vals z hz).2)
+    (fun h hh => (E2E.Example.ex_paths h hh).2) text hr
 
 end Jd.Props.C02
